@@ -602,3 +602,61 @@ func VerifLemma_C06A_Selection() {
 		verifAssert(err2 == nil && len(cfg2.RuleIDs) == len(want), "selection independent of list order")
 	}
 }
+
+// ---- C06-E: ignore roots are normalized, relative, inside the module and never "." ----
+
+// VerifLemma_C06E_NormalizeIgnoreRoots: for every byte string r (0..N bytes) and a second fixed root "a/b":
+// normalizeIgnoreRootPaths([r, "a/b"]) either fails or returns a sorted duplicate-free list in which every root is
+// non-empty, relative, not ".", free of "." / ".." / empty components (so it can only match files inside the
+// module), and "" is skipped. A root that already is a clean relative path is kept as is.
+func VerifLemma_C06E_NormalizeIgnoreRoots() {
+	r := verifNondetString(verifParam("N"))
+	out, err := normalizeIgnoreRootPaths([]string{r, "a/b"})
+	verifCover("returned")
+	clean := len(r) > 0 // r is a clean relative path over [a-z/]
+	for i := 0; i < len(r); i++ {
+		c := r[i]
+		if !((c >= 'a' && c <= 'z') || c == '/') {
+			clean = false
+		}
+		if c == '/' && (i == 0 || i == len(r)-1 || r[i-1] == '/') {
+			clean = false
+		}
+	}
+	if err != nil {
+		verifCover("rejected")
+		verifAssert(!clean && len(r) > 0, "a clean relative root and the empty root are never rejected")
+		return
+	}
+	verifCover("accepted")
+	verifAssert(len(out) >= 1 && len(out) <= 2, "one or two roots")
+	hasAB, hasR := false, false
+	for k, p := range out {
+		if k > 0 {
+			verifAssert(out[k-1] < p, "sorted, duplicate-free")
+		}
+		if p == "a/b" {
+			hasAB = true
+		}
+		if p == r {
+			hasR = true
+		}
+		verifAssert(len(p) > 0 && p[0] != '/', "root is non-empty and relative")
+		verifAssert(p != ".", "the module root itself cannot be ignored")
+		start := 0
+		for i := 0; i <= len(p); i++ {
+			if i == len(p) || p[i] == '/' {
+				comp := p[start:i]
+				verifAssert(comp != "" && comp != "." && comp != "..", "no empty, '.' or '..' component")
+				start = i + 1
+			}
+		}
+	}
+	verifAssert(hasAB, "the other root is kept")
+	if clean {
+		verifAssert(hasR, "a clean relative root is kept unchanged")
+	}
+	if len(r) == 0 {
+		verifAssert(len(out) == 1, "the empty root is skipped")
+	}
+}
